@@ -102,6 +102,13 @@ def run(ctx):
         "client hang-up: the driver closes the connection right after the headers or right after the entry carrying the "
         "root hash, then waits until no RPC arrived for 700 ms (handler pause: 100 ms) and up to 5 s for the Unpin call; "
         "the harness Unpin returns ctx.Err() under a cancelled context, as the real consensus layer does",
+        "daemon availability: 'down' = the proxy's node address is a bound, never listening port (connection refused), "
+        "'reset' = the harness daemon resets every accepted connection, 'slow' = it answers after 1 s through a proxy whose "
+        "client-leg timeouts (read_header_timeout, idle_timeout) are 300 ms; a connection dropped on all 4 attempts while the "
+        "daemon is down/reset is recorded as an observation (AnswersAlways), any other transport failure is retried / infra",
+        "repo/stat with cluster=real3 runs against three real Cluster peers (real RPC server + authorization policy, "
+        "connected libp2p hosts, harness consensus/connectors); a failing peer may show as an error or as the sum over the "
+        "healthy peers (the statement does not say; the code logs and skips)",
         "repo/gc: an X-Stream-Error trailer listing per-key failures is the faithful answer, not an error answer",
         "not covered: several arg= values on pin add/rm, CONNECT/upgrade, "
         "concurrent requests",
@@ -109,7 +116,7 @@ def run(ctx):
     # SPEC + GEN
     cases_file = os.path.join(ctx.work, "c12_requests.ndjson")
     ctx.tlc("ProxyMC.tla", "ProxyMC.cfg", timeout=1800, env_extra={"CASES_FILE": cases_file})
-    ctx.tlc("ProxySeq.tla", "ProxySeq.cfg", timeout=1800)
+    ctx.tlc("ProxySeq.tla", "ProxySeq.cfg" if ctx.quick() else "ProxySeq_thorough.cfg", timeout=1800)
     # addHandler step model: every position of the client disconnect; the non-coded settings must give the
     # design-level counterexamples that the hangup / fault cases realise on the real proxy
     ctx.tlc("ProxyAdd.tla", "ProxyAdd_coded.cfg", timeout=600, workers=2)
@@ -173,13 +180,18 @@ def script_of(ctx, rec):
     return [c for c in idx[me["grp"]] if c["id"] <= rec["id"]]
 
 
-CLASSES = [("exact", "HijackExact"), ("relay", "RelayIdentity"), ("leak", "NeverLeaks"),
+CLASSES = [("dropped", "AnswersAlways"), ("exact", "HijackExact"), ("relay", "RelayIdentity"), ("leak", "NeverLeaks"),
            ("errnoop", "ErrorMeansNoOp"), ("unfaithful", "Faithful")]
 
 
 def key_of(cls, rec):
     q, o = rec["req"], rec["obs"]
+    dm = "" if q.get("daemon", "up") == "up" else ":daemon=" + q["daemon"]
+    if cls == "dropped":
+        return "C12:dropped:%s:%s%s" % (q["route"] if q["pathk"] == "route" else q["pathk"], q["method"], dm)
     if q["pathk"] != "route":
+        if dm:
+            return "C12:%s:%s:%s%s" % (cls, q["pathk"], q["method"], dm)
         if cls == "exact":
             return "C12:exact:%s:answered-by-proxy-%s" % (q["pathk"], o["status"])
         return "C12:%s:%s:%s" % (cls, q["pathk"], q["method"])
@@ -203,8 +215,11 @@ def key_of(cls, rec):
         sal = "%s:%s:unpin=%s" % (q["arg"], q["arg2"], q["unpin"])
     elif r in ("pin/add", "pin/rm", "pin/ls"):
         sal = "%s:%s:type=%s" % (q["style"], q["arg"], q["type"])
+    elif r == "repo/stat" and q.get("cluster", "-") != "-":
+        sal = "cluster=%s:peerfail=%s" % (q["cluster"], q["peerfail"])
     else:
         sal = q["streamerr"]
+    sal += dm
     if q.get("enc", "-") != "-":
         sal += ":enc=" + q["enc"]
     if cls in ("exact", "relay"):
